@@ -1278,6 +1278,355 @@ static void eigenOps(Sink& S, const Ref& A)
 }
 
 // =====================================================================================================
+// E2: histories of operations on ONE object (hidden per-object state: caches, flags, lazily built factors)
+// =====================================================================================================
+// After every step (mode 0) or only at the end (mode 1) every 'derived result' request is made on the LIVE object and
+// compared with what a fresh object holding the reference content must give (the long-double reference replays the mutators).
+enum Mut { M_setValue = 0, M_addValue, M_setRow, M_setColumn, M_setDiagonal, M_fill, M_addScalar, M_addScalarDiag, M_prodScalar,
+           M_addMatInPlace, M_linearCombination, M_multiplyRow, M_multiplyColumn, M_divideRow, M_divideColumn, M_transposeInPlace,
+           M_invert, M_prodMatMatIntoThis, M_prodMatInPlace, M_setValues, M_resetFromVD, M_copyAssign, M_cloneReplace, M_copyCtorReplace,
+           M_normMatrix, NMUT };
+static const char* mutName[NMUT] = {"setValue", "addValue", "setRow", "setColumn", "setDiagonal", "fill", "addScalar", "addScalarDiag", "prodScalar",
+                                    "addMatInPlace", "linearCombination", "multiplyRow", "multiplyColumn", "divideRow", "divideColumn", "transposeInPlace",
+                                    "invert", "prodMatMatInPlace-into-this", "prodMatInPlace", "setValues", "resetFromVD", "copy-assign", "clone-replace", "copy-ctor-replace",
+                                    "normMatrix"};
+struct HObj { int s = 0; AMatrix* m = nullptr; Ref R; LD amp = 1; };
+
+static Ref hMenu(int r, int c, int k, bool sym)
+{
+  Ref b(r, c);
+  for (int i = 0; i < r; i++) for (int j = 0; j < c; j++)
+  {
+    int a = sym ? std::min(i, j) : i, d = sym ? std::max(i, j) : j;
+    b(i, j) = (LD)((a * 3 + d * 5 + k * 7) % 5) - 1;
+  }
+  if (sym || r == c) for (int i = 0; i < std::min(r, c); i++) b(i, i) += 3;   // keeps the square menus non singular
+  return b;
+}
+static AMatrix* typedCopy(int s, const AMatrix* m)
+{
+  if (s == RECT) return new MatrixRectangular(*dynamic_cast<const MatrixRectangular*>(m));
+  if (s == SQG) return new MatrixSquareGeneral(*dynamic_cast<const MatrixSquareGeneral*>(m));
+  if (s == SYM) return new MatrixSquareSymmetric(*dynamic_cast<const MatrixSquareSymmetric*>(m));
+  return new MatrixSparse(*dynamic_cast<const MatrixSparse*>(m));
+}
+static bool allPresent(const HObj& o, int i0, int i1, int j0, int j1)
+{
+  if (o.s != SPC) return true;
+  const MatrixSparse* sp = dynamic_cast<const MatrixSparse*>(o.m);
+  for (int i = i0; i < i1; i++) for (int j = j0; j < j1; j++) if (!sp->_isElementPresent(i, j)) return false;
+  return true;
+}
+// returns false when the operation is not defined for that storage / content (history not enabled)
+static bool applyMut(int op, HObj& o)
+{
+  const int s = o.s, r = o.R.r, c = o.R.c;
+  const bool sq = r == c, sym = s == SYM;
+  AMatrix* m = o.m;
+  switch (op)
+  {
+    case M_setValue: { if (!allPresent(o, 0, 1, c - 1, c)) return false; m->setValue(0, c - 1, 3.); o.R(0, c - 1) = 3; if (sym) o.R(c - 1, 0) = 3; return true; }
+    case M_addValue: { if (!allPresent(o, r - 1, r, 0, 1)) return false; m->addValue(r - 1, 0, 1.); o.R(r - 1, 0) += 1; if (sym && r - 1 != 0) o.R(0, r - 1) += 1; return true; }
+    case M_setRow: { if (sym || !allPresent(o, r - 1, r, 0, c)) return false; std::vector<LD> t = mvec(c, 1); m->setRow(r - 1, toVD(t)); for (int j = 0; j < c; j++) o.R(r - 1, j) = t[j]; return true; }
+    case M_setColumn: { if (sym || !allPresent(o, 0, r, 0, 1)) return false; std::vector<LD> t = mvec(r, 2); m->setColumn(0, toVD(t)); for (int i = 0; i < r; i++) o.R(i, 0) = t[i]; return true; }
+    case M_setDiagonal: { if (!sq) return false; std::vector<LD> t = mvec(r, 3); m->setDiagonal(toVD(t)); o.R = rdiag(t); return true; }
+    case M_fill: { m->fill(2.); for (auto& x : o.R.a) x = 2; return true; }
+    case M_addScalar: { if (isSparseSt(s)) return false; m->addScalar(1.); for (auto& x : o.R.a) x += 1; return true; }
+    case M_addScalarDiag: { if (!sq) return false; m->addScalarDiag(1.); for (int i = 0; i < r; i++) o.R(i, i) += 1; return true; }
+    case M_prodScalar: { m->prodScalar(2.); for (auto& x : o.R.a) x *= 2; return true; }
+    case M_addMatInPlace:
+    {
+      Ref B = hMenu(r, c, 1, sym);
+      AMatrix* y = build(s, B);
+      if (isSparseSt(s)) dynamic_cast<MatrixSparse*>(m)->addMatInPlace(*dynamic_cast<MatrixSparse*>(y), 1., 1.);
+      else dynamic_cast<AMatrixDense*>(m)->addMatInPlace(*dynamic_cast<AMatrixDense*>(y), 1., 1.);
+      delete y; o.R = rlin(1, o.R, 1, B); return true;
+    }
+    case M_linearCombination:
+    {
+      if (s == SPC) return false;
+      Ref B1 = hMenu(r, c, 2, sym), B2 = hMenu(r, c, 3, sym);
+      AMatrix* y1 = build(RECT, B1); AMatrix* y2 = build(RECT, B2);
+      m->linearCombination(2., y1, -1., y2);
+      delete y1; delete y2; o.R = rlin(2, B1, -1, B2); return true;
+    }
+    case M_multiplyRow: { if (sym) return false; std::vector<LD> v = mvec(r); m->multiplyRow(toVD(v)); o.R = rmul(rdiag(v), o.R); return true; }
+    case M_multiplyColumn: { if (sym) return false; std::vector<LD> v = mvec(c, 2); m->multiplyColumn(toVD(v)); o.R = rmul(o.R, rdiag(v)); return true; }
+    case M_divideRow: { if (sym) return false; std::vector<LD> v = mvec(r), iv(r); for (int i = 0; i < r; i++) iv[i] = 1 / v[i]; m->divideRow(toVD(v)); o.R = rmul(rdiag(iv), o.R); return true; }
+    case M_divideColumn: { if (sym) return false; std::vector<LD> v = mvec(c, 2), iv(c); for (int j = 0; j < c; j++) iv[j] = 1 / v[j]; m->divideColumn(toVD(v)); o.R = rmul(o.R, rdiag(iv)); return true; }
+    case M_transposeInPlace: { if (s == SQG && !sq) return false; m->transposeInPlace(); o.R = o.R.T(); return true; }
+    case M_invert:
+    {
+      if (!sq) return false;
+      Ref inv; if (!rinv(o.R, inv)) return false;
+      LD cond = rnorm1(o.R) * rnorm1(inv); if (cond > 1e4) return false;
+      Ref L; LD ld; if (isSparseSt(s) && !(o.R.symmetric() && rchol(o.R, L, ld))) return false;
+      if (m->invert() != 0) return false;
+      o.R = inv; o.amp *= cond; return true;
+    }
+    case M_prodMatMatIntoThis:
+    {
+      // this <- X * Y with fixed operands of the storage class of 'this' (symmetric storage: G * G')
+      Ref X = sym ? hMenu(r, 2, 4, false) : hMenu(r, r, 4, false), Y = sym ? X.T() : hMenu(r, c, 5, false);
+      int so = isSparseSt(s) ? s : RECT;
+      AMatrix* x = build(so, X); AMatrix* y = build(so, Y);
+      m->prodMatMatInPlace(x, y, false, false);
+      delete x; delete y; o.R = rmul(X, Y); return true;
+    }
+    case M_prodMatInPlace:
+    {
+      if (sym) return false;
+      Ref Y = hMenu(c, c, 6, false); int so = isSparseSt(s) ? s : RECT;
+      AMatrix* y = build(so, Y); m->prodMatInPlace(y, false); delete y; o.R = rmul(o.R, Y); return true;
+    }
+    case M_setValues: { Ref B = hMenu(r, c, 7, sym); m->setValues(toVD(B.T().a), true); o.R = B; return true; }
+    case M_resetFromVD: { if (isSparseSt(s)) return false; Ref B = hMenu(r, c, 8, sym); m->resetFromVD(r, c, toVD(B.T().a), true); o.R = B; return true; }
+    case M_copyAssign:
+    {
+      // the source has gone through derived-result requests of its own
+      Ref B = hMenu(r, c, 9, sym);
+      AMatrix* src = build(s, B);
+      if (sym) { MatrixSquareSymmetric* ss = dynamic_cast<MatrixSquareSymmetric*>(src); ss->computeEigen(); MatrixSquareSymmetric gi(r); ss->computeGeneralizedInverse(gi); }
+      if (s == RECT) *dynamic_cast<MatrixRectangular*>(m) = *dynamic_cast<MatrixRectangular*>(src);
+      else if (s == SQG) *dynamic_cast<MatrixSquareGeneral*>(m) = *dynamic_cast<MatrixSquareGeneral*>(src);
+      else if (s == SYM) *dynamic_cast<MatrixSquareSymmetric*>(m) = *dynamic_cast<MatrixSquareSymmetric*>(src);
+      else *dynamic_cast<MatrixSparse*>(m) = *dynamic_cast<MatrixSparse*>(src);
+      delete src; o.R = B; return true;
+    }
+    case M_cloneReplace: { AMatrix* q = dynamic_cast<AMatrix*>(m->clone()); delete m; o.m = q; return true; }
+    case M_copyCtorReplace: { AMatrix* q = typedCopy(s, m); delete m; o.m = q; return true; }
+    case M_normMatrix:
+    {
+      if (!sym) return false;
+      Ref G = hMenu(2, r, 10, false);
+      AMatrix* g = build(RECT, G);
+      dynamic_cast<MatrixSquareSymmetric*>(m)->normMatrix(*g);   // this = t(G) G
+      delete g; o.R = rmul(G.T(), G); return true;
+    }
+  }
+  return false;
+}
+
+static bool cmpMatTo(const AMatrix* m, const Ref& e, double tol, LD scale, std::string& why)
+{
+  Got g = readMat(m);
+  if (!g.ok) { why = g.err; return false; }
+  if (g.r != e.r || g.c != e.c) { why = "is " + std::to_string(g.r) + "x" + std::to_string(g.c); return false; }
+  for (int i = 0; i < e.r; i++) for (int j = 0; j < e.c; j++)
+    if (!nearLD(g(i, j), e(i, j), tol, scale)) { Ref gr(g.r, g.c); for (size_t k = 0; k < g.a.size(); k++) gr.a[k] = g.a[k]; why = "element (" + std::to_string(i) + "," + std::to_string(j) + ") = " + fmt(g(i, j)) + " instead of " + fmt((double)e(i, j)) + "; got " + gr.str(); return false; }
+  return true;
+}
+static bool cmpVecTo(const VectorDouble& v, const std::vector<LD>& e, double tol, LD scale, std::string& why)
+{
+  if (v.size() != e.size()) { why = "has " + std::to_string(v.size()) + " elements"; return false; }
+  for (size_t i = 0; i < e.size(); i++) if (!nearLD(v[i], e[i], tol, scale)) { why = "element " + std::to_string(i) + " = " + fmt(v[i]) + " instead of " + fmt((double)e[i]) + "; got " + vstr(v); return false; }
+  return true;
+}
+
+// every derived-result request on the live object
+static void derivedRequests(Sink& S, HObj& o, const std::string& after, const std::string& hist)
+{
+  const int s = o.s, r = o.R.r, c = o.R.c;
+  const Ref& R = o.R;
+  LD scale = 1; for (auto x : R.a) scale = std::max<LD>(scale, fabsl(x));
+  const double tol = 1e-10 * (double)o.amp;
+  const std::string pre = std::string("history:") + stClass(s) + ":";
+  const std::string ctx = std::string(" [") + stName[s] + "] history " + hist + " ; content must be " + R.str();
+  std::string why;
+  auto bad = [&](const std::string& req, const std::string& what) { S.badKey(pre + req + ":after:" + after, req + " " + what + ctx); };
+  S.eval();
+  if (!cmpMatTo(o.m, R, tol, scale, why)) { bad("content", why); return; }   // nothing else is meaningful
+  {
+    VectorDouble v = o.m->getValues(true); std::vector<LD> e = R.T().a; S.eval();
+    if (!cmpVecTo(v, e, tol, scale, why)) bad("getValues", why);
+  }
+  { std::vector<LD> e; for (int j = 0; j < c; j++) e.push_back(R(r - 1, j)); S.eval(); if (!cmpVecTo(o.m->getRow(r - 1), e, tol, scale, why)) bad("getRow", why); }
+  { std::vector<LD> e; for (int i = 0; i < r; i++) e.push_back(R(i, 0)); S.eval(); if (!cmpVecTo(o.m->getColumn(0), e, tol, scale, why)) bad("getColumn", why); }
+  { std::vector<LD> x = mvec(c, 1); S.eval(); if (!cmpVecTo(o.m->prodMatVec(toVD(x)), rmv(R, x), tol, scale * 8, why)) bad("prodMatVec", why); }
+  { std::vector<LD> x = mvec(r, 2); S.eval(); if (!cmpVecTo(o.m->prodVecMat(toVD(x)), rmv(R.T(), x), tol, scale * 8, why)) bad("prodVecMat", why); }
+  { AMatrix* t = o.m->transpose(); S.eval(); if (!cmpMatTo(t, R.T(), tol, scale, why)) bad("transpose", why); delete t; }
+  if (r != c) return;
+  { std::vector<LD> e; for (int i = 0; i < r; i++) e.push_back(R(i, i)); S.eval(); if (!cmpVecTo(o.m->getDiagonal(), e, tol, scale, why)) bad("getDiagonal", why); }
+  Ref inv; bool nonsing = rinv(R, inv);
+  LD cond = nonsing ? rnorm1(R) * rnorm1(inv) : 0;
+  Ref L; LD logdet = 0; bool spd = R.symmetric() && rchol(R, L, logdet) && cond < 1e6;
+  if (s == SQG || s == SYM)
+  {
+    AMatrixSquare* q = dynamic_cast<AMatrixSquare*>(o.m);
+    std::vector<int> p(r); for (int i = 0; i < r; i++) p[i] = i; LD det = 0;
+    do { LD t = 1; int nv = 0; for (int i = 0; i < r; i++) { t *= R(i, p[i]); for (int j = 0; j < i; j++) if (p[j] > p[i]) nv++; } det += (nv & 1) ? -t : t; } while (std::next_permutation(p.begin(), p.end()));
+    LD ds = 1; for (int i = 0; i < r; i++) ds *= scale;
+    S.eval(); if (!nearLD(q->determinant(), det, tol * 10, ds)) bad("determinant", "= " + fmt(q->determinant()) + " instead of " + fmt((double)det));
+  }
+  if (nonsing && cond < 1e6 && (!isSparseSt(s) || spd))
+  {
+    const double tl = tol * (double)cond * 10;
+    { std::vector<LD> b = mvec(r, 1); VectorDouble x(r, 0.); o.m->solve(toVD(b), x); S.eval(); if (!cmpVecTo(x, rmv(inv, b), tl, rnorm1(inv) * 4, why)) bad("solve", why); }
+    { AMatrix* q = dynamic_cast<AMatrix*>(o.m->clone()); q->invert(); S.eval(); if (!cmpMatTo(q, inv, tl, rnorm1(inv), why)) bad("invert-on-a-clone", why); delete q; }
+  }
+  else S.outcome("history:excluded:singular-or-non-SPD(solve/invert)");
+  if (s == SYM)
+  {
+    MatrixSquareSymmetric* q = dynamic_cast<MatrixSquareSymmetric*>(o.m);
+    std::vector<LD> ev = reigvals(R);
+    const double te = std::max(1e-9, (double)tol * 100);
+    S.eval();
+    if (q->computeEigen() != 0) bad("computeEigen", "failed");
+    else
+    {
+      VectorDouble val = q->getEigenValues(); const MatrixSquareGeneral* vec = q->getEigenVectors();
+      VectorDouble sorted = val; std::sort(sorted.begin(), sorted.end(), std::greater<double>());
+      bool ok = (int)val.size() == r && vec != nullptr && vec->getNRows() == r;
+      if (ok) for (int i = 0; i < r; i++) if (!nearLD(sorted[i], ev[i], te, scale)) ok = false;
+      if (!ok) { std::vector<double> evd(ev.begin(), ev.end()); bad("computeEigen", "eigenvalues " + vstr(val) + " instead of the spectrum " + vstr(evd)); }
+      else
+      {
+        Ref V(r, r), D(r, r); for (int i = 0; i < r; i++) { D(i, i) = val[i]; for (int j = 0; j < r; j++) V(i, j) = vec->getValue(i, j); }
+        std::string w;
+        if (!matNear(rmul(R, V), rmul(V, D), te, scale, w)) bad("computeEigen", "A V != V diag(lambda) at " + w);
+      }
+    }
+    LD mine = ev.back();
+    if (fabsl(mine) > 1e-6L * scale) { S.eval(); bool g = q->isDefinitePositive(); if (g != (mine > 0)) bad("isDefinitePositive", std::string("= ") + (g ? "true" : "false") + " with smallest eigenvalue " + fmt((double)mine)); }
+    else S.outcome("history:excluded:eigenvalue-near-zero(isDefinitePositive)");
+    if (nonsing && cond < 1e4)
+    {
+      MatrixSquareSymmetric gi(r); S.eval();
+      if (q->computeGeneralizedInverse(gi) != 0) bad("computeGeneralizedInverse", "failed");
+      else if (!cmpMatTo(&gi, inv, std::max(1e-8, (double)tol * 100) * (double)cond, rnorm1(inv), why)) bad("computeGeneralizedInverse", why);
+    }
+  }
+  if (spd && (s == SYM || isSparseSt(s)))
+  {
+    // a Cholesky helper built now on the live object
+    ACholesky* ch = s == SYM ? (ACholesky*)new CholeskyDense(dynamic_cast<MatrixSquareSymmetric*>(o.m)) : (ACholesky*)new CholeskySparse(dynamic_cast<MatrixSparse*>(o.m));
+    VectorDouble b = toVD(mvec(r, 1)), x(r, 0.); constvect bs(b.data(), b.size()); vect xs(x.data(), x.size());
+    ch->solve(bs, xs); S.eval(2);
+    if (!cmpVecTo(x, rmv(inv, mvec(r, 1)), tol * (double)cond * 10, rnorm1(inv) * 4, why)) bad("cholesky-solve", why);
+    if (!nearLD(ch->computeLogDeterminant(), logdet, tol * (double)cond * 10, 1)) bad("cholesky-logdet", "= " + fmt(ch->computeLogDeterminant()) + " instead of " + fmt((double)logdet));
+    delete ch;
+  }
+}
+
+static std::string histName(const std::vector<int>& h) { std::string s; for (size_t i = 0; i < h.size(); i++) s += (i ? " > " : "") + std::string(mutName[h[i]]); return s; }
+
+static const int NHCONT = 4;
+static Ref histContent(int k)
+{
+  if (k == 0) return fromList(2, 2, {2, 1, 1, 2});
+  if (k == 1) return fromList(3, 3, {4, 1, 2, 1, 3, 0, 2, 0, 5});
+  if (k == 2) return fromList(2, 3, {1, 2, 0, 0, -1, 4});
+  return fromList(2, 2, {2, -1, 4, 1});
+}
+// one history; mode 0: derived requests after every step, mode 1: only at the end
+static void runHistory(Sink& S, int s, int k, int mode, const std::vector<int>& h)
+{
+  Ref A = histContent(k);
+  std::string key = std::string("history:") + stClass(s) + ":crash-or-exception:" + mutName[h.back()];
+  S.run(key, [&] {
+    HObj o; o.s = s; o.R = A; o.m = build(s, A);
+    // the initial object has also answered every request once (its caches are primed with the initial content)
+    if (mode == 0) derivedRequests(S, o, "construction", "(fresh)");
+    for (size_t i = 0; i < h.size(); i++)
+    {
+      if (!applyMut(h[i], o)) { S.outcome("history:not-enabled"); S.skip(); delete o.m; return; }
+      if (mode == 0 || i + 1 == h.size()) derivedRequests(S, o, mutName[h[i]], histName(std::vector<int>(h.begin(), h.begin() + i + 1)) + (mode ? " (requests at the end only)" : " (requests after every step)"));
+    }
+    S.outcome("history:depth=" + std::to_string(h.size()) + ":mode=" + std::to_string(mode));
+    Hash hh; hh.s("hist").i(s).i(k).i(mode); for (int x : h) hh.i(x);
+    S.nontrivial(hh.h);
+    delete o.m;
+  });
+}
+
+// ---- histories on the Cholesky helper classes ---------------------------------------------------------
+enum CholOp { C_set0 = 0, C_set1, C_set2, C_mutateAndSet, C_copyCtor, C_copyAssign, C_requests, NCHOLOP };
+static const char* cholOpName[NCHOLOP] = {"setMatrix(A0)", "setMatrix(A1)", "setMatrix(A2)", "mutate-matrix+setMatrix", "copy-construct", "copy-assign", "requests"};
+static Ref cholMenu(int k)
+{
+  if (k == 0) return fromList(3, 3, {2, -1, 0, -1, 2, -1, 0, -1, 2});
+  if (k == 1) return fromList(3, 3, {4, 1, 2, 1, 3, 0, 2, 0, 5});
+  return fromList(2, 2, {2, 1, 1, 2});
+}
+static void cholRequests(Sink& S, int kind, ACholesky* ch, const Ref& A, const std::string& after, const std::string& hist)
+{
+  static const char* kn[3] = {"chol-dense", "chol-sparse-eigen", "chol-sparse-cs"};
+  const std::string pre = std::string("history:") + kn[kind] + ":";
+  const std::string ctx = " history " + hist + " ; current matrix " + A.str();
+  // mechanism keys: <kind>:<copy | setMatrix-again | requests-only>:<factor | triangles>
+  auto bad = [&](const std::string& req, const std::string& what) {
+    bool tri = req == "getLowerTriangle" || req == "getUpperTriangleInverse" || req == "matProductInPlace";
+    S.badKey(pre + after + ":" + (tri ? "triangles" : "factor"), req + " " + what + ctx);
+  };
+  const int n = A.r;
+  Ref inv, L; LD logdet; rinv(A, inv); rchol(A, L, logdet);
+  const LD sI = rnorm1(inv), sA = rnorm1(A);
+  std::string w;
+  S.eval(3);
+  if (ch->getSize() != n) { bad("getSize", "= " + std::to_string(ch->getSize()) + " instead of " + std::to_string(n)); return; }
+  Ref X = linmap(n, [&](constvect b, vect x) { ch->solve(b, x); });
+  if (!matNear(X, inv, 1e-9, sI, w)) bad("solve", "columns are not A^-1 at " + w);
+  double ld = ch->computeLogDeterminant();
+  if (!nearLD(ld, logdet, 1e-9, 1)) bad("logdet", "= " + fmt(ld) + " instead of " + fmt((double)logdet));
+  Ref M = linmap(n, [&](constvect b, vect x) { ch->InvLtX(b, x); });
+  if (!matNear(rmul(M, M.T()), inv, 1e-9, sI, w)) bad("InvLtX", "M M' != A^-1 at " + w);
+  if (kind == 0)
+  {
+    CholeskyDense* cd = dynamic_cast<CholeskyDense*>(ch);
+    Ref Lg(n, n), Xg(n, n);
+    for (int i = 0; i < n; i++) for (int j = 0; j < n; j++) { Lg(i, j) = cd->getLowerTriangle(i, j); Xg(i, j) = cd->getUpperTriangleInverse(i, j); }
+    S.eval(3);
+    if (!matNear(rmul(Lg, Lg.T()), A, 1e-9, sA, w)) bad("getLowerTriangle", "L L' != A at " + w + " L=" + Lg.str());
+    if (!matNear(rmul(Lg, Xg), rident(n), 1e-9, 1, w)) bad("getUpperTriangleInverse", "L X != I at " + w);
+    Ref Ar(n, 2); MatrixRectangular a(n, 2); for (int i = 0; i < n; i++) for (int j = 0; j < 2; j++) { Ar(i, j) = menuV[(i * 2 + j) % 8]; a.setValue(i, j, (double)Ar(i, j)); }
+    MatrixRectangular x; cd->matProductInPlace(1, a, x);
+    std::string why; if (!cmpMatTo(&x, rmul(L, Ar), 1e-9, sA * 8, why)) bad("matProductInPlace", why);
+  }
+}
+static void runCholHistory(Sink& S, int kind, const std::vector<int>& h)
+{
+  static const char* kn[3] = {"chol-dense", "chol-sparse-eigen", "chol-sparse-cs"};
+  bool hasCopyC = false, hasCopyA = false; for (int x : h) { hasCopyC = hasCopyC || x == C_copyCtor; hasCopyA = hasCopyA || x == C_copyAssign; }
+  bool anySet = false; for (int x : h) anySet = anySet || x <= C_mutateAndSet;
+  const std::string mech = (hasCopyC || hasCopyA) ? "copy" : anySet ? "setMatrix-again" : "requests-only";
+  std::string key = std::string("history:") + kn[kind] + ":" + mech + ":crash";
+  S.run(key, [&] {
+    const int st = kind == 0 ? SYM : kind == 1 ? SPE : SPC;
+    std::vector<Ref> refs; std::vector<AMatrix*> mats;
+    for (int k = 0; k < 3; k++) { refs.push_back(cholMenu(k)); mats.push_back(build(st, refs[k])); }
+    auto mk = [&](AMatrix* m) -> ACholesky* { return kind == 0 ? (ACholesky*)new CholeskyDense(dynamic_cast<MatrixSquareSymmetric*>(m)) : (ACholesky*)new CholeskySparse(dynamic_cast<MatrixSparse*>(m)); };
+    auto setM = [&](ACholesky* c, AMatrix* m) { return kind == 0 ? dynamic_cast<CholeskyDense*>(c)->setMatrix(dynamic_cast<MatrixSquareSymmetric*>(m)) : dynamic_cast<CholeskySparse*>(c)->setMatrix(dynamic_cast<MatrixSparse*>(m)); };
+    int cur = 0;
+    ACholesky* ch = mk(mats[0]);
+    ACholesky* other = nullptr;
+    std::string hs;
+    for (size_t i = 0; i < h.size(); i++)
+    {
+      int op = h[i];
+      hs += (i ? " > " : "") + std::string(cholOpName[op]);
+      if (op <= C_set2) { cur = op; if (setM(ch, mats[cur]) != 0) S.badKey(std::string("history:") + kn[kind] + ":setMatrix:fails", "setMatrix returns an error on an SPD matrix; history " + hs); }
+      else if (op == C_mutateAndSet) { mats[cur]->addScalarDiag(1.); for (int d = 0; d < refs[cur].r; d++) refs[cur](d, d) += 1; setM(ch, mats[cur]); }
+      else if (op == C_copyCtor)
+      {
+        ACholesky* q = kind == 0 ? (ACholesky*)new CholeskyDense(*dynamic_cast<CholeskyDense*>(ch)) : (ACholesky*)new CholeskySparse(*dynamic_cast<CholeskySparse*>(ch));
+        delete ch; ch = q;   // the copy must be self-contained
+      }
+      else if (op == C_copyAssign)
+      {
+        delete other; other = mk(mats[1]);
+        if (kind == 0) *dynamic_cast<CholeskyDense*>(ch) = *dynamic_cast<CholeskyDense*>(other); else *dynamic_cast<CholeskySparse*>(ch) = *dynamic_cast<CholeskySparse*>(other);
+        delete other; other = nullptr; cur = 1;   // the source goes away: the target must stay usable
+      }
+      if (op == C_requests || i + 1 == h.size()) cholRequests(S, kind, ch, refs[cur], mech, hs);
+    }
+    Hash hh; hh.s("cholhist").i(kind); for (int x : h) hh.i(x);
+    S.nontrivial(hh.h);
+    S.outcome("history:chol:depth=" + std::to_string(h.size()));
+    delete ch; for (auto m : mats) delete m;
+  });
+}
+
+// =====================================================================================================
 // numeric vectors: VectorNumT methods and VH:: helpers
 // =====================================================================================================
 static const double TESTV = 1.234e30;
@@ -1719,6 +2068,44 @@ VF_PART(binary_medium)
     prodOps(S, a, b);
     if (a.r == b.r && a.c == b.c && (id % 7) == 0) sumOps(S, a, b);
     if (b.square() && (b.r == a.r || b.r == a.c)) normOps(S, a, b, (id % n) == 128);
+  });
+}
+// E2: histories of 2..3 (thorough 4 on the symmetric and sparse storages) mutators on ONE object, all derived requests replayed
+VF_PART(history_matrix)
+{
+  const uint64_t per = (uint64_t)NMUT * NMUT;
+  const uint64_t n = (uint64_t)NST * NHCONT * 2 * per;
+  runCases(C, n, [&](Sink& S, uint64_t id) {
+    int op2 = (int)(id % NMUT), op1 = (int)((id / NMUT) % NMUT); uint64_t q = id / per;
+    int mode = (int)(q % 2); q /= 2; int k = (int)(q % NHCONT); int s = (int)(q / NHCONT);
+    if (!canHold(s, histContent(k))) { S.skip(); return; }
+    runHistory(S, s, k, mode, {op1, op2});
+    // quick tier: depth 3 on the 2x2 SPD start in both modes, on the 2x3 and the non symmetric 2x2 starts with requests after
+    // every step; the 3x3 start stays at depth 2. thorough: depth 3 everywhere.
+    if (!C.thorough() && (k == 1 || (mode == 1 && k != 0))) { S.outcome("history:quick-tier-depth-2-only"); return; }
+    for (int op3 = 0; op3 < NMUT; op3++)
+    {
+      runHistory(S, s, k, mode, {op1, op2, op3});
+      if (C.thorough() && mode == 0 && k == 0 && (s == SYM || isSparseSt(s)))
+        for (int op4 = 0; op4 < NMUT; op4++) runHistory(S, s, k, mode, {op1, op2, op3, op4});
+    }
+    if (id % 4099 == 17) S.sample("{\"id\":" + std::to_string(id) + ",\"storage\":" + jstr(stName[s]) + ",\"start\":" + jstr(histContent(k).str()) + ",\"history\":" + jstr(histName({op1, op2}) + " > *") + "}");
+  });
+}
+VF_PART(history_cholesky)
+{
+  const int depth = C.thorough() ? 5 : 3;
+  uint64_t per = 1; for (int d = 0; d < depth; d++) per *= NCHOLOP;
+  runCases(C, 3 * per, [&](Sink& S, uint64_t id) {
+    int kind = (int)(id / per); uint64_t q = id % per;
+    std::vector<int> h; for (int d = 0; d < depth; d++) { h.push_back((int)(q % NCHOLOP)); q /= NCHOLOP; }
+    // every prefix is a history of its own (prefixes of length < depth are run when the remaining digits are 0)
+    for (int len = 1; len <= depth; len++)
+    {
+      bool tailZero = true; for (int d = len; d < depth; d++) if (h[d] != 0) tailZero = false;
+      if (len < depth && !tailZero) continue;
+      runCholHistory(S, kind, std::vector<int>(h.begin(), h.begin() + len));
+    }
   });
 }
 VF_PART(vectors)
